@@ -98,6 +98,12 @@ class _ViewList:
         return list(self) == list(o)
 
 
+#: called with the result dtype whenever two arrays are multiplied in a
+#: floating-point type narrower than 64 bit (values are exact reals in this
+#: model, so the precision loss itself cannot be represented)
+NARROW_FLOAT_HOOK = None
+
+
 class SArr:
     """array with concrete length along axis 0 and symbolic elements"""
     __array_priority__ = 1000
@@ -374,7 +380,11 @@ class SArr:
         return s._map2(o, lambda a, b: _num(b) - _num(a), s._resdtype(o))
 
     def __mul__(s, o):
-        return s._map2(o, lambda a, b: _num(a) * _num(b), s._resdtype(o))
+        rd = s._resdtype(o)
+        if NARROW_FLOAT_HOOK is not None and rd.kind == "f" and \
+                rd.itemsize < 8:
+            NARROW_FLOAT_HOOK(rd)
+        return s._map2(o, lambda a, b: _num(a) * _num(b), rd)
 
     def __rmul__(s, o):
         return s._map2(o, lambda a, b: _num(b) * _num(a), s._resdtype(o))
